@@ -59,7 +59,7 @@ async fn scenario(sim: Arc<Sim>, unit: Value) -> Obs {
     let n_peers = unit["peers"].as_u64().unwrap() as usize;
     let crash = unit["crash"].as_str().unwrap_or("none").to_string();
     let action = unit["action"].as_str().unwrap_or("shutdown").to_string();
-    let ctx = format!("[peers {n_peers}, in flight {}, concurrent {}, action {action}, crash {crash}{}{}]", unit["inflight"], unit["concurrent"], match unit["shutdown_idle_ms"].as_u64() { Some(v) => format!(", shutdown_idle_timeout {v} ms"), None => String::new() }, match unit["connecting_cap"].as_u64() { Some(v) => format!(", cap of {v} on connections being established"), None => String::new() });
+    let ctx = format!("[peers {n_peers}, in flight {}, concurrent {}, action {action}, crash {crash}{}{}]", unit["inflight"], unit["concurrent"], match unit["shutdown_idle_ms"].as_u64() { Some(v) => format!(", shutdown_idle_timeout {v} ms"), None => String::new() }, match (unit["connecting_cap"].as_u64(), unit["redial"].as_bool()) { (Some(v), _) => format!(", cap of {v} on connections being established"), (_, Some(true)) => ", every connection made a second time 50 ms earlier".to_string(), _ => String::new() });
 
     let mut cfg_under_test = cfg_n();
     // the configured bound on the idle wait; 0 and tiny values are legal
@@ -100,6 +100,17 @@ async fn scenario(sim: Arc<Sim>, unit: Value) -> Obs {
         expected_lost.push(p2.peer_id());
     }
     tokio::time::sleep(ms(50)).await;
+    // `redial`: every connection is made a second time (same direction) shortly before the
+    // shutdown, so the registry has just replaced (or refused) a connection
+    if unit["redial"].as_bool().unwrap_or(false) {
+        if n_peers >= 1 {
+            let _ = n.connect(p1.local_addr()).await;
+        }
+        if n_peers >= 2 {
+            let _ = p2.connect(n_addr).await;
+        }
+        tokio::time::sleep(ms(50)).await;
+    }
 
     // ---- work in flight at the moment of shutdown ----
     let mut pending_calls: Vec<(String, tokio::task::JoinHandle<Result<(), String>>)> = vec![];
@@ -468,6 +479,12 @@ impl Check for C08 {
                 if inflight.iter().any(|i| *i == "dial_blackhole" || *i == "bg_dial") && inflight.len() <= 2 {
                     for action in ["shutdown", "drop"] {
                         u.push(json!({"peers":peers,"inflight":inflight,"concurrent":[],"action":action,"crash":"none","bound":0,"connecting_cap":1}));
+                    }
+                }
+                // every connection made twice just before (a replaced connection is around)
+                if inflight.len() <= 1 && peers >= 1 {
+                    for action in ["shutdown", "drop"] {
+                        u.push(json!({"peers":peers,"inflight":inflight,"concurrent":[],"action":action,"crash":"none","bound":0,"redial":true}));
                     }
                 }
                 // other values of the configured idle-wait bound
